@@ -26,6 +26,7 @@ class Leaf:
     stmts: list[ast.stmt] = field(default_factory=list)
     evaluated: list[str] = field(default_factory=list)  # atoms in evaluation order
     ver: dict[str, int] = field(default_factory=dict)  # versions of locals rebound after they had been tested (see decision_tree)
+    pre_resolved: bool = False  # the tree was built with resolve=...: stmts and value are resolved already (resolving twice is wrong for x = f(x))
 
     def versioned(self, e: ast.expr | None) -> ast.expr | None:
         return _versioned(e, self.ver) if e is not None else None
@@ -36,6 +37,8 @@ class Leaf:
     def resolved(self, calls: bool = False) -> tuple[list[ast.stmt], ast.expr | None]:
         """Executed statements and leaving value with path-local pure definitions substituted (normalize.resolve_path)."""
         from .normalize import resolve_path
+        if self.pre_resolved:
+            return list(self.stmts), self.value
         tail = [ast.Expr(value=self.value)] if self.value is not None else []
         for t in tail:
             ast.copy_location(t, self.value)
@@ -237,9 +240,9 @@ def decision_tree(
         try:
             try:
                 block(stmts)
-                leaves.append(Leaf(dict(assign), "fall", None, executed, order, dict(ver)))
+                leaves.append(Leaf(dict(assign), "fall", None, executed, order, dict(ver), bool(resolve)))
             except _Leave as l:
-                leaves.append(Leaf(dict(assign), l.outcome, l.value, executed, order, dict(ver)))
+                leaves.append(Leaf(dict(assign), l.outcome, l.value, executed, order, dict(ver), bool(resolve)))
         except NeedAtom as n:
             if len(assign) >= max_atoms:
                 raise Unsupported(f"more than {max_atoms} atoms in decided region (next: {n.key})", n.node)
@@ -303,7 +306,7 @@ def bool_function(stmts: list[ast.stmt], preset: dict[str, Any] | None = None, *
             for val in dom(n.key):
                 a2 = dict(lf.assign)
                 a2[n.key] = val
-                work.append(Leaf(a2, lf.outcome, lf.value, lf.stmts, lf.evaluated, lf.ver))
+                work.append(Leaf(a2, lf.outcome, lf.value, lf.stmts, lf.evaluated, lf.ver, lf.pre_resolved))
     return rows
 
 
